@@ -887,6 +887,36 @@ func c16Conc() string {
 		}
 		close(stop)
 		wg.Wait()
+		// threads that start and finish (RecordThreadFinished changes the thread tables) while
+		// StopThreads — what the CLI tool calls on reload — walks them
+		stopS := make(chan struct{})
+		var sw sync.WaitGroup
+		sw.Add(1)
+		go func() {
+			defer sw.Done()
+			for {
+				select {
+				case <-stopS:
+					return
+				default:
+				}
+				c.dbg.StopThreads(0)
+			}
+		}()
+		for t := uint64(100); t < 140; t++ {
+			c.start(t, "short", "q := 1\nr := 2\n")
+		}
+		for t := uint64(100); t < 140; t++ {
+			c.mu.Lock()
+			d := c.done[t]
+			c.mu.Unlock()
+			select {
+			case <-d:
+			case <-time.After(5 * time.Second):
+			}
+		}
+		close(stopS)
+		sw.Wait()
 		close(finished)
 	}()
 	select {
